@@ -9,6 +9,7 @@ import WR.C05.LemmasMatch
 import WR.C05.LemmasSpec
 import WR.C05.LemmasDom
 import WR.C05.LemmasParseTotal
+import WR.C05.LemmasRT11
 namespace WR.Props.C05
 open WR.C05 WR.C05.Spec WR.C05.Lemmas
 
@@ -340,10 +341,54 @@ theorem parsed_specificity_eq_spec (text : Str) (g : List Sel) (_h : parseGroupT
     ∀ s ∈ g, HasSpecificity s (specificity s) :=
   fun s _ => specificity_eq_spec s
 
-/-- the parser model runs inside the kernel: parse, then print -/
-example : (match WR.C05.Parse.parseGroupText "a.b>P:not( .x,#y ):nth-child( -2n + 3 )::before".toList with
-    | .ok g => WR.C05.Print.printGroup g
-    | .error _ => []) = "a.b > p:not(.x, #y):nth-child(-2n+3)::before".toList := by
+open WR.C05.Parse WR.C05.Print in
+section
+/-! ## print → parse -/
+
+/-- C05, "a parsed selector printed back parses to an equivalent selector": for every selector list of
+    the shapes the parser builds (`groupPrintable`: non-empty names without U+0000, lower-case tag and
+    attribute names, type selector first, known pseudo-elements, `:is/:not/:has` lists non-empty,
+    left-nested combinators — nested lists to any depth), parsing the printed text gives back the SAME
+    list, by mutual structural recursion over the selector (WR/C05/LemmasRT*.lean). -/
+theorem print_parse_roundtrip (g : List Sel) (h : groupPrintable g = true) :
+    parseGroupText (printGroup g) = .ok g := by
+  simp only [groupPrintable, Bool.and_eq_true, Bool.not_eq_true', List.isEmpty_eq_false_iff] at h
+  cases g with
+  | nil => exact absurd rfl h.1
+  | cons s ss =>
+    have hw := h.2
+    simp only [wfs, Bool.and_eq_true] at hw
+    have := group_thm s ss hw.1 ((master s).2.2 hw.1) ((masterList ss).2 hw.2)
+      (fuelFor (printGroup (s :: ss))) [] trivial (by simp only [List.append_nil, fuelFor]; omega)
+    simp only [List.append_nil] at this
+    unfold parseGroupText
+    rw [this]
+
+/-- one printable selector: `Parse(s.String())` is `s` -/
+theorem print_parse_roundtrip_one (s : Sel) (h : wf 3 s = true) :
+    parseGroupText (printSel s) = .ok [s] := by
+  have := print_parse_roundtrip [s] (by simp [groupPrintable, wfs, h])
+  simpa [printGroup] using this
+
+example : groupPrintable [.combined (.compound [] [.tag ['a'], .cls ['1', '.']]) .child
+    (.compound "before".toList [.rel .not [.attr ['k'] ['"'] .pre true, .nth (-2) 3 true false]])] = true := by
   decide
+
+/-- the printed form selects the same elements and weighs the same: the re-parsed list is the list -/
+theorem print_preserves_matching (g : List Sel) (h : groupPrintable g = true) :
+    ∃ g', parseGroupText (printGroup g) = .ok g' ∧
+      (∀ l, matchAny g' l = matchAny g l) ∧ g'.map specificity = g.map specificity ∧
+      g'.map pseudoElement = g.map pseudoElement :=
+  ⟨g, print_parse_roundtrip g h, fun _ => rfl, rfl, rfl⟩
+
+/-- … and, on a well-formed document and inside `selOk`, exactly the elements the Selectors
+    definition assigns to the ORIGINAL list -/
+theorem printed_selects_spec {S : Loc → Prop} (hS : DomOk S) (g : List Sel)
+    (h : groupPrintable g = true) (hs : selsOk g = true) :
+    ∃ g', parseGroupText (printGroup g) = .ok g' ∧
+      ∀ l, S l → (matchAny g' l = true ↔ MatchesAny g l) :=
+  ⟨g, print_parse_roundtrip g h, fun l hl => matchAny_iff_spec hS g hs l hl⟩
+
+end
 
 end WR.Props.C05
